@@ -4,6 +4,15 @@ import json
 
 # id -> (technique, level text, level_note, design_ref)
 CLAIMED = {
+ "C13": ("exhaustive choice-tree enumeration (E1) of tile lists x (exponent, offset, output zoom) vs per-tile C12 conversion, exact interval reference and expansion reference",
+         "Full product of tile vertical zoom x exponent x output zoom x index class x offset x footprint class x 8 list shapes (overlapping ranges, duplicates, a bad tile in each position): footprint kept, zoom, exact per-tile index set, containment of the tile interval, duplicate freedom, whole-call failure, and the spatial-ID variant as union of expansions.",
+         "Trusted: ref.AltKeyToZ, ref.ChangeZoom. Calls predicted above 600 IDs are skipped and counted.", "4/C13"),
+ "C15": ("exhaustive choice-tree enumeration (E1): every string over an 8-letter alphabet up to length 4 (quick) / 6 (thorough), every bad-field placement and arity edit, every invalid numeric/point argument, through 24 ID-consuming and ~30 argument-taking functions vs a re-implemented input grammar",
+         "Every candidate string is classified by an independent grammar (exactly strconv.ParseInt's language, exact arity) and every error-returning exported function must reject the malformed ones without panicking; invalid zooms, options, radii, layer counts, nil points and out-of-range coordinates must give errors and empty results; accepted points keep lon/alt bit-for-bit.",
+         "Trusted: ref.ParseInt grammar. Strings beyond the length bound only via mutation tokens; the latitude sliver (85.0511287798, 85.0511287799) is not judged.", "4/C15"),
+ "C20": ("exhaustive choice-tree enumeration (E1) of slices, (index, shift) pairs, (n,k), vector and matrix alphabets vs map/set, big-integer and direct-formula references",
+         "All pairs of slices over a 3-letter alphabet up to length 3 (quick) / 4 (thorough), all shifts in [-62,62] of a dense index window plus boundary classes, all 0<=k<=n<=12, vector pairs incl. exact opposites, matrix triples.",
+         "Trusted: Go maps, math/big; float laws with stated relative tolerances.", "4/C20"),
  "C10": ("exhaustive choice-tree enumeration (E1) of IDs and short lists through notation conversions, object parse/print and expansion vs string permutation and dyadic-box reference",
          "Full products over zoom pairs x index classes (distinct components so swaps show) for parse/print/getters; all list shapes of length 0..3 for the notation round trips; all zoom differences |h-v| <= 4 for the expansion (duplicate-free, count, region).",
          "Trusted: ref.Vox formatting and ref.ChangeZoom.", "4/C10"),
